@@ -19,7 +19,7 @@ var c05Counters = []uint64{0, 1, 2, 20, 126, 127, 128, 129, 300, 16383, 16384, 1
 
 func TestVerif_C05_Announcements(t *testing.T) {
 	acct := vacct.Get("C05")
-	vacct.RapidCheck(t, vacct.N(150, 12000), func(rt *rapid.T) {
+	vacct.RapidCheck(t, vacct.N(150, 60000), func(rt *rapid.T) {
 		kind := rapid.IntRange(0, 2).Draw(rt, "kind")
 		W := rapid.SampledFrom([]int{3, 100}).Draw(rt, "window")
 		w := vNewGroupWorld(kind, W, 4)
